@@ -46,11 +46,17 @@ var payloads = map[string][]string{
   type: b
   major: 1
   minor: 0
+  file_mode: 384
+  uid: 3
 - path: /dev/b2
   type: c
   major: 2
   minor: 3
   gid: 9
+- path: /dev/b3
+  type: c
+  major: 4
+  minor: 5
 `, `- path: [unterminated`},
 	mntKey: {"", `
 - source: /src/a
@@ -61,10 +67,13 @@ var payloads = map[string][]string{
 - source: /src/b1
   destination: /dst/b1
   type: bind
+  options: [rbind, ro]
 - source: tmpfs
   destination: /dst/b2
   type: tmpfs
   options: [nosuid]
+- source: /src/b3
+  destination: /dst/b3
 `, `just a string, not a list`},
 	cdiKey: {"", `["vendor.com/dev=a"]`, `
 - vendor.com/dev=b1
@@ -98,7 +107,7 @@ func refDevices(p int) []string {
 	case 1:
 		return []string{"/dev/a c 10:20 mode=420 uid=7 gid=unset"}
 	case 2:
-		return []string{"/dev/b1 b 1:0 mode=unset uid=unset gid=unset", "/dev/b2 c 2:3 mode=unset uid=unset gid=9"}
+		return []string{"/dev/b1 b 1:0 mode=384 uid=3 gid=unset", "/dev/b2 c 2:3 mode=unset uid=unset gid=9", "/dev/b3 c 4:5 mode=unset uid=unset gid=unset"}
 	}
 	return nil
 }
@@ -107,7 +116,7 @@ func refMounts(p int) []string {
 	case 1:
 		return []string{"/src/a -> /dst/a bind [bind ro]"}
 	case 2:
-		return []string{"/src/b1 -> /dst/b1 bind []", "tmpfs -> /dst/b2 tmpfs [nosuid]"}
+		return []string{"/src/b1 -> /dst/b1 bind [rbind ro]", "tmpfs -> /dst/b2 tmpfs [nosuid]", "/src/b3 -> /dst/b3  []"}
 	}
 	return nil
 }
